@@ -197,6 +197,7 @@ type Interp struct {
 	pathCover map[string]bool
 	strConsts map[string]*cellsArr
 	lenient   int
+	built     map[*ssa.Package]bool
 	noMerge   bool
 	deadline  time.Time
 	choiceLog map[string]int
@@ -255,6 +256,7 @@ func NewInterp(prog *ssa.Program, cfg *Config) (*Interp, error) {
 		UFsHit:        map[string]int{},
 	}
 	in.fnName = map[*ssa.Function]string{}
+	in.built = map[*ssa.Package]bool{}
 	in.execOK = map[string]bool{}
 	for _, e := range defaultExec {
 		in.execOK[e] = true
